@@ -117,7 +117,7 @@ Theorem C12_consistent_mesh_region : forall ip m a b k ref m',
   mesh_rotate90 ip m a b k ref = OK m' ->
   exists r' i1 i2, region_rotate90 ip (reg m) a b k ref = OK r' /\
     dim2index (reg m) a = OK i1 /\ dim2index (reg m) b = OK i2 /\
-    reg m' = r' /\ n m' = rot_n k i1 i2 (n m) /\ bc m' = bc m.
+    reg m' = r' /\ n m' = rot_n k i1 i2 (n m) /\ bc m' = rot_bc k a b (bc m).
 Proof. exact mesh_rotate90_inv. Qed.
 Print Assumptions C12_consistent_mesh_region.
 
